@@ -101,12 +101,12 @@ def generate(spec):
             n_live_est += 3
             next_id += 3
         elif r < 0.30 and n_live_est < 10:
-            ops.append({"op": "create", "type": rng.choice(["a", "b"])})
+            ops.append({"op": "create", "type": rng.choice(["a", "b", "a", "b", "cap"])})
             n_live_est += 1
             next_id += 1
         elif r < 0.38 and n_live_est < 8:
             c = rng.choice([2, 3])
-            ops.append({"op": "create_many", "type": rng.choice(["a", "b"]), "count": c})
+            ops.append({"op": "create_many", "type": rng.choice(["a", "b", "cap"]), "count": c})
             n_live_est += c
             next_id += c
         elif r < 0.58:
@@ -119,7 +119,7 @@ def generate(spec):
             ops.append({"op": rng.choice(["delete_type", "delete_each_of_type"]), "type": rng.choice(["a", "b"])})
             n_live_est = max(0, n_live_est - 2)
         elif r < 0.74:
-            spec_ = [[t, rng.choice([0, 1, 2, 3])] for t in rng.sample(["a", "b"], rng.choice([1, 2]))]
+            spec_ = [[t, rng.choice([0, 1, 2, 3])] for t in rng.sample(["a", "b", "cap"], rng.choice([1, 2]))]
             ops.append({"op": "configure", "spec": spec_})
             if rng.random() < 0.4:
                 ops[-1]["via"] = "model"        # Model.configure(config) instead of configure_agents(spec)
@@ -156,6 +156,16 @@ def shadow_apply(sh, op):
         for _ in range(2):
             shadow_apply(sh, {"op": "create", "type": "a"})
         sh["live"][tid] = ["team", "idle"]
+    elif k == "create" and op["type"] == "cap":
+        # the newcomer's id is taken, it removes the oldest of its kind while it initialises (if the population is full),
+        # then it is registered
+        nid = sh["next"]
+        sh["ever"].add(nid)
+        sh["next"] += 1
+        caps = [i for i, (t, s_) in sh["live"].items() if t == "cap"]
+        if len(caps) >= 2:
+            sh["live"].pop(caps[0])
+        sh["live"][nid] = ["cap", "idle"]
     elif k == "create":
         sh["live"][sh["next"]] = [op["type"], "idle"]
         sh["ever"].add(sh["next"])
@@ -209,7 +219,7 @@ def compare(model, sh, res, where):
                 res.violate("C14.lookup-by-id", {"id": i, "got": None if a is None else a.id, "where": where})
             if i not in live and a is not None:
                 res.violate("C14.lookup-by-id", {"id": i, "got": a.id, "expected": None, "where": where})
-    for t in ("a", "b", "team"):
+    for t in ("a", "b", "team", "cap"):
         exp_ids = [i for i, (tt, s) in live.items() if tt == t]
         st, got = q("agent_ids(%s)" % t, lambda: list(model.agent_ids(t)))
         if st == "ok" and got != exp_ids:
